@@ -404,14 +404,28 @@ Definition validate_tx (fs : list frame) (c : commit) : res unit :=
 Inductive tail := TClean | TAll | TAfter (lsn : N).
 Definition rtx := (commit * list frame)%type.
 
-Fixpoint recover_commits (fs : list frame) (cs : list commit) : res (list rtx) :=
+(* frames.iter().map(lsn).min() *)
+Definition min_lsn (fs : list frame) : option N :=
+  fold_right (fun f acc => match acc with
+                           | None => Some (f_lsn f)
+                           | Some m => Some (N.min (f_lsn f) m)
+                           end) None fs.
+
+(* Lsn::checked_next *)
+Definition lsn_next (l : N) : option N := if l =? 2 ^ 64 - 1 then None else Some (l + 1).
+
+(* the commit loop of recover_from_frames_and_commits: commit markers must tile the frame LSN range in
+   order ([expected] = first LSN the next marker has to start at; None = no constraint) *)
+Fixpoint recover_commits (fs : list frame) (expected : option N) (cs : list commit) : res (list rtx) :=
   match cs with
   | [] => Ok []
   | c :: r =>
-      let t := tx_frames fs c in
-      let* _ := validate_tx t c in
-      let* ts := recover_commits fs r in
-      Ok ((c, t) :: ts)
+      if match expected with Some e => negb (c_first c =? e) | None => false end then Err VLsn
+      else
+        let t := tx_frames fs c in
+        let* _ := validate_tx t c in
+        let* ts := recover_commits fs (lsn_next (c_last c)) r in
+        Ok ((c, t) :: ts)
   end.
 
 Definition last_commit_lsn (cs : list commit) : option N :=
@@ -428,7 +442,7 @@ Definition fc_tail (fs : list frame) (cs : list commit) : tail :=
 (* recover_from_frames_and_commits *)
 Definition recover_fc (fs : list frame) (cs : list commit) : res (list rtx * tail) :=
   let* _ := validate_order fs in
-  let* ts := recover_commits fs cs in
+  let* ts := recover_commits fs (min_lsn fs) cs in
   Ok (ts, fc_tail fs cs).
 
 (* RecoveryScanReport::last_committed_lsn (maximum, not last) *)
